@@ -644,7 +644,8 @@ pub fn finish<P: Property>(tier: Tier, seed: u64, res: RunResult) -> i32 {
     });
     let edir = root.join("evidence");
     let _ = std::fs::create_dir_all(&edir);
-    let epath = edir.join(format!("{}.json", P::ID));
+    let suffix = std::env::var("VERIF_EVIDENCE_SUFFIX").unwrap_or_default();
+    let epath = edir.join(format!("{}{}.json", P::ID, suffix));
     if let Err(e) = std::fs::write(&epath, serde_json::to_string_pretty(&evidence).unwrap()) {
         eprintln!("cannot write evidence {}: {e}", epath.display());
         return 2;
